@@ -170,6 +170,9 @@ theorem BL_skipSpace (n : Nat) (b : Buf) (h : BL T n b) : BL T n (skipSpace b) :
 theorem BL_skipSpaceStopLang (n : Nat) (b : Buf) (h : BL T n b) : BL T n (skipSpaceStopLang b) := by
   exact BL_sublist T n _ _ (List.dropWhile_sublist _) h
 
+theorem BL_skipSpaceStopLangAct (n : Nat) (b : Buf) (h : BL T n b) : BL T n (skipSpaceStopLangAct b) := by
+  exact BL_sublist T n _ _ (List.dropWhile_sublist _) h
+
 theorem BL_skippedLangs (n : Nat) (b : Buf) (h : BL T n b) : BL T n (skippedLangs b) := by
   exact BL_sublist T n _ _ ((List.filter_sublist (l := b.takeWhile isSpaceTok)).trans
     (List.takeWhile_sublist _)) h
@@ -362,7 +365,7 @@ theorem parseNewlineOption_spec (hw : T.WFInv) (buf : Buf) (skip : Bool) (st : P
       BL T st.latex.length r ∧ st' = { st with diags := st'.diags }) := by
   simp only [parseNewlineOption]
   have hb1 : BL T st.latex.length (if skip = true then (match lookAhead buf with
-                            | some t => if txtIs t "[" = true then skipSpace buf else buf
+                            | some t => if txtIsNV t "[" = true then skipSpace buf else buf
                             | none => buf) else buf) := by
     split
     · split
@@ -372,7 +375,7 @@ theorem parseNewlineOption_spec (hw : T.WFInv) (buf : Buf) (skip : Bool) (st : P
       · exact hb
     · exact hb
   generalize (if skip = true then (match lookAhead buf with
-                            | some t => if txtIs t "[" = true then skipSpace buf else buf
+                            | some t => if txtIsNV t "[" = true then skipSpace buf else buf
                             | none => buf) else buf) = buf1 at hb1
   cases buf1 with
   | nil => exact ⟨hb1, rfl⟩
